@@ -46,7 +46,8 @@ Frames ==
   \cup { F("PUSH_PROMISE", s, [pad |-> p, short |-> sh, eh |-> TRUE]) : s \in Sids, p \in Pads, sh \in BOOLEAN }
   \cup { F("PING", s, [ack |-> a, len |-> l]) : s \in {0, 1}, a \in BOOLEAN, l \in {8, 7, 9} }
   \cup { F("GOAWAY", s, [len |-> l]) : s \in {0, 1}, l \in {8, 7, 12} }
-  \cup { F("WINDOW_UPDATE", s, [len |-> l, incr |-> i]) : s \in Sids, l \in {4, 3, 5}, i \in {0, 1, 2147483647} }
+  \* rinc: the reserved bit in front of the 31-bit increment is set on the wire; it must be ignored (RFC 7540 6.9), so the outcome is that of incr
+  \cup { F("WINDOW_UPDATE", s, [len |-> l, incr |-> i, rinc |-> r]) : s \in Sids, l \in {4, 3, 5}, i \in {0, 1, 2147483647}, r \in BOOLEAN }
   \cup { F("CONTINUATION", s, [eh |-> eh]) : s \in Sids, eh \in BOOLEAN }
   \cup { F("UNKNOWN", s, [len |-> l]) : s \in {0, 1}, l \in {0, 3} }
   \cup { [F("PING", 0, [ack |-> FALSE, len |-> 8]) EXCEPT !.rbit = TRUE],          \* reserved bit set: must be ignored
